@@ -172,6 +172,11 @@ class Report:
                     "evaluations": 0, "distinct_nontrivial": 0, "rule": "", "tlc_runs": [], "parts": {}}
         self.assumptions = []
         self._distinct = set()
+        rdir = os.path.join(VERIF, "replay", pid)
+        if os.path.isdir(rdir):
+            for f in os.listdir(rdir):
+                if f.startswith(tier + "-"):
+                    os.remove(os.path.join(rdir, f))
 
     # -- coverage bookkeeping
     def tlc(self, res, label):
